@@ -2,7 +2,9 @@ package packagerender
 
 import (
 	"context"
+	"fmt"
 
+	manifestsv1alpha1 "package-operator.run/apis/manifests/v1alpha1"
 	"package-operator.run/internal/packages/internal/packagetypes"
 )
 
@@ -24,6 +26,15 @@ func RenderPackageInstance(
 	objects, err := RenderObjectsWithFilter(ctx, pkg, tmplCtx, objValidator)
 	if err != nil {
 		return nil, err
+	}
+	// The condition-map annotation is parsed again when the ObjectSetTemplate is rendered,
+	// where a malformed annotation can't be reported anymore: reject it here.
+	for i := range objects {
+		if _, err := parseConditionMapAnnotation(&objects[i]); err != nil {
+			return nil, fmt.Errorf("%s %s: invalid %s annotation: %w",
+				objects[i].GetKind(), objects[i].GetName(),
+				manifestsv1alpha1.PackageConditionMapAnnotation, err)
+		}
 	}
 	pkgInst := &packagetypes.PackageInstance{
 		Manifest:     pkg.Manifest,
